@@ -90,3 +90,35 @@ pub fn sprinkle_empty_text(a: &mut crate::adoc::ANode, rng: &mut crate::rng::Rng
         sprinkle_empty_text(c, rng, n);
     }
 }
+
+/// give one element of the tree `n` more attributes (no-namespace names w0, w1, ...): maps beyond 16 / 32 entries
+pub fn widen_attrs(a: &mut crate::adoc::ANode, rng: &mut crate::rng::Rng, n: usize) -> bool {
+    use crate::adoc::*;
+    fn elems(a: &ANode, path: &mut Vec<usize>, out: &mut Vec<Vec<usize>>) {
+        if a.kind == AKind::Elem {
+            out.push(path.clone());
+        }
+        for (i, c) in a.children.iter().enumerate() {
+            path.push(i);
+            elems(c, path, out);
+            path.pop();
+        }
+    }
+    let mut paths = Vec::new();
+    elems(a, &mut Vec::new(), &mut paths);
+    if paths.is_empty() {
+        return false;
+    }
+    let p = paths[rng.below(paths.len())].clone();
+    let mut cur = a;
+    for i in p {
+        cur = &mut cur.children[i];
+    }
+    for k in 0..n {
+        let q = QName::plain(&format!("w{}", k));
+        if !cur.attrs.iter().any(|(x, _)| *x == q) {
+            cur.attrs.push((q, format!("v{}", k % 3)));
+        }
+    }
+    true
+}
